@@ -1,7 +1,7 @@
 PROP = dict(
     harness="c08", level="exploration",
     make=["build/bin/c08", "build/gen/x86_forms.txt"],
-    quick=dict(cases=200000, max_size=60, workers=16),
+    quick=dict(cases=160000, max_size=60, workers=16),
     thorough=dict(cases=5000000, max_size=80, workers=16, timeout=7200),
     rule=("rapidcheck sequences of emitter calls (x86-32 / x86-64: ISA-DB forms instantiated by gen/x86inst.h incl. lock/rep/xacquire, {k}{z}{er}{sae}, extra register, "
           "random option bits, inline comments, plus hand-written label shapes jmp/jcc/call/loop/lea/mov/AVX-512 [label]; AArch64: 66 register/immediate/shift/extend/"
